@@ -12,7 +12,7 @@ package gossip
 //@    && n.Entries != nil && (forall k string :: !(k in n.Entries))
 
 //@ contract (*clusterState).ApplyDigest
-//@   serves C11 C02 C03 C13 C14 C20
+//@   serves C11 C02 C03 C13 C14 C20 C04
 //@   modifies entries(s.nodes)
 //@   ensures[known-kept] forall id string :: old(id in s.nodes) ==> id in s.nodes && s.nodes[id] == old(s.nodes[id])
 //@   ensures[left-not-learned] forall id string :: id in s.nodes && !old(id in s.nodes) ==> (exists j int :: 0 <= j && j < len(digest) && digest[j].ID == id && !digest[j].Left && blankNode(s.nodes[id], id, digest[j].Addr))
@@ -30,7 +30,7 @@ package gossip
 // ---- applyDeltaEntry / ApplyDelta (C02, C11, C13, C14) ------------------------
 
 //@ contract (*clusterState).applyDeltaEntry
-//@   serves C02 C11 C13 C14 C20
+//@   serves C02 C11 C13 C14 C20 C04
 //@   requires[locked] held(clusterState.mu)
 //@   requires[inv] csInv(s) && wInv(s)
 //@   requires[class] forall j int :: 0 <= j && j < len(entry.Entries) ==> entry.Entries[j].Internal == isInternalKey(entry.Entries[j].Key)
@@ -70,7 +70,7 @@ package gossip
 //@   loop 2 ensures[compact-no-new] forall k string :: k in state.Entries ==> oldloop(k in state.Entries)
 
 //@ contract (*clusterState).ApplyDelta
-//@   serves C02 C11 C13 C14 C20
+//@   serves C02 C11 C13 C14 C20 C04
 //@   requires[env-class] forall i int, j int :: 0 <= i && i < len(delta) && 0 <= j && j < len(delta[i].Entries) ==> delta[i].Entries[j].Internal == isInternalKey(delta[i].Entries[j].Key)
 //@   ensures[known-kept] forall id string :: old(id in s.nodes) ==> id in s.nodes && s.nodes[id] == old(s.nodes[id])
 //@   ensures[monotone] forall id string :: old(id in s.nodes) ==> s.nodes[id].Version >= old(s.nodes[id].Version)
@@ -94,7 +94,7 @@ package gossip
 //@ uninterp suspAt(id string) float64
 
 //@ contract (*clusterState).UpdateLiveness
-//@   serves C11 C14 C20
+//@   serves C11 C14 C20 C04
 //@   ensures[nodes-kept] forall id string :: (id in s.nodes) == old(id in s.nodes) && s.nodes[id] == old(s.nodes[id])
 //@   ensures[identity] forall id string :: id in s.nodes ==> s.nodes[id].ID == old(s.nodes[id].ID) && s.nodes[id].Addr == old(s.nodes[id].Addr) && s.nodes[id].Version == old(s.nodes[id].Version) && s.nodes[id].Left == old(s.nodes[id].Left)
 //@   ensures[local-and-left-untouched] forall id string :: id in s.nodes && (id == s.localID || old(s.nodes[id].Left)) ==> s.nodes[id].NodeMetadata == old(s.nodes[id].NodeMetadata)
@@ -114,7 +114,7 @@ package gossip
 //@ ghost gForgotten bool
 
 //@ contract (*clusterState).RemoveExpiredAt
-//@   serves C11 C14 C20
+//@   serves C11 C14 C20 C04
 //@   ghost-set gForgotten = old(gForgotten) || (old(gNode() in s.nodes) && old(expired(s, gNode(), t)) && old(s.nodes[gNode()].Unreachable) && !old(s.nodes[gNode()].Left))
 //@   modifies entries(s.nodes)
 //@   ensures[after-expiry] forall id string :: old(id in s.nodes) && old(expired(s, id, t)) ==> !(id in s.nodes)
